@@ -28,7 +28,7 @@ type c19Reg struct {
 // behaviours: a Go function and a jq BODY with the same input/output relation
 var (
 	c19PlainBehs = []string{"all", "first", "last", "self", "cnt", "obj", "verr", "verr0", "perr", "pack"}
-	c19IterBehs  = []string{"each", "selfeach", "none", "mid", "one", "twice", "fixed", "lazy"}
+	c19IterBehs  = []string{"each", "selfeach", "none", "mid", "one", "twice", "fixed", "lazy", "oneerr", "oneperr"}
 )
 
 type c19ValErr struct{ v any }
@@ -115,6 +115,11 @@ func c19GoIter(beh string) func(any, []any) gojq.Iter {
 			return &c19SliceIter{xs: xs}
 		case "one":
 			return gojq.NewIter(v)
+		case "oneerr":
+			// the usual way for an iterator function to fail: an iterator over one error
+			return gojq.NewIter[any](&c19ValErr{"oneerr"})
+		case "oneperr":
+			return gojq.NewIter[any](errC19Plain)
 		case "fixed":
 			// a fixed stream kept by the callback's owner and handed to the library's slice iterator on every call
 			return gojq.NewIter(c19Fixed...)
@@ -173,6 +178,10 @@ func c19Body(beh string, n int) string {
 		return strings.Join(append([]string{"."}, as...), ", ")
 	case "none":
 		return "empty"
+	case "oneerr":
+		return `error("oneerr")`
+	case "oneperr":
+		return "error(" + strconv.Quote(c19PlainMsg) + ")"
 	case "fixed":
 		return `1, "two", [3], null, false`
 	case "mid":
@@ -338,6 +347,12 @@ func c19Exec(src string, opts []gojq.CompilerOption, input any, budget int64) (t
 			}
 			t.Evs = append(t.Evs, c19Ev{Err: err})
 			t.End = "ok"
+			// the iterator may be advanced after an error: whatever it yields then (not compared), it must not panic
+			for i := 0; i < 3; i++ {
+				if w, ok := iter.Next(); !ok || w == run.ErrBudget {
+					break
+				}
+			}
 			return
 		} else {
 			t.Evs = append(t.Evs, c19Ev{V: v})
